@@ -172,6 +172,27 @@ class Gen:
                 body += f"{ind}    {line}"
                 if rng.random() < 0.3 and line.startswith("self.") and ".deep" not in line:
                     body += f'{ind}    """Instance attribute doc."""\n'
+        if self.hostile and rng.random() < 0.6:
+            # definitions nested in __init__ (its body is visited with the method as current scope): plain / decorated /
+            # overloaded functions, property groups, classes, imports - totality only, the structural model stops at `self.x`
+            i2 = ind + "    "
+            for _ in range(rng.randint(1, 3)):
+                nm = self.name("n")
+                body += rng.choice([
+                    f"{i2}def {nm}(x): ...\n",
+                    f"{i2}@overload\n{i2}def {nm}(x: int) -> int: ...\n{i2}@overload\n{i2}def {nm}(x: str) -> str: ...\n{i2}def {nm}(x): ...\n",
+                    f"{i2}@typing.overload\n{i2}def {nm}(x: int) -> int: ...\n",
+                    f"{i2}@property\n{i2}def {nm}(s): ...\n{i2}@{nm}.setter\n{i2}def {nm}(s, v): ...\n",
+                    f"{i2}@{nm}.setter\n{i2}def {nm}(s, v): ...\n",
+                    f"{i2}@functools.cached_property\n{i2}def {nm}(s): ...\n",
+                    f"{i2}async def {nm}(x): ...\n",
+                    f"{i2}class {nm}:\n{i2}    y = 1\n{i2}    def m(self): ...\n",
+                    f"{i2}import os.path as {nm}\n",
+                    f"{i2}from os import path as {nm}\n",
+                    f"{i2}{nm} = lambda q: q\n",
+                    f"{i2}__all__ = ['{nm}']\n",
+                    f"{i2}if TYPE_CHECKING:\n{i2}    def {nm}(): ...\n",
+                ])
         return src + body
 
     def klass(self, ind: str, depth: int) -> str:
